@@ -12,3 +12,5 @@ import GitBugModel.Props.C01
 import GitBugModel.Props.C02
 import GitBugModel.Model.Lamport
 import GitBugModel.Props.C05
+import GitBugModel.Model.Identity
+import GitBugModel.Props.C09
